@@ -156,7 +156,141 @@ def run_impl(case, proto_cache={}):
             conn.io = None
     elif mode == 'real':
         outs = run_real_socket(case)
+    elif mode == 'mainloop':
+        outs = run_mainloop(case)
     return outs
+
+
+class VLoop(asyncio.SelectorEventLoop):
+    """asyncio loop whose clock jumps to the next timer when nothing is ready (no real I/O)"""
+
+    def __init__(self):
+        super().__init__()
+        self._vt = 0.0
+
+    def time(self):
+        return self._vt
+
+    def _run_once(self):
+        if not self._ready and self._scheduled:
+            when = self._scheduled[0]._when
+            if when > self._vt:
+                self._vt = when
+        super()._run_once()
+
+
+class TimedSock:
+    """bytes become readable at scripted (virtual) times; recv is an await point that can be cancelled"""
+
+    def __init__(self, stream, arrivals):
+        self.stream = stream
+        self.arrivals = list(arrivals)  # [(gap_seconds, nbytes)]
+        self.avail = 0
+        self.pos = 0
+        self.next_at = None
+
+    def close(self):
+        pass
+
+    def fileno(self):
+        return -1
+
+
+class TimedLoop:
+    def __init__(self, loop):
+        self.loop = loop
+
+    async def sock_recv_into(self, sock, view):
+        while sock.avail == 0:
+            if not sock.arrivals:
+                if sock.pos >= len(sock.stream):
+                    return 0
+                sock.avail = len(sock.stream) - sock.pos
+                break
+            if sock.next_at is None:
+                sock.next_at = self.loop.time() + sock.arrivals[0][0]
+            delay = sock.next_at - self.loop.time()
+            if delay > 0:
+                await asyncio.sleep(delay)  # cancellation point: nothing consumed
+            gap, nb = sock.arrivals.pop(0)
+            sock.next_at = None
+            sock.avail += min(nb, len(sock.stream) - sock.pos - sock.avail)
+            if sock.pos + sock.avail >= len(sock.stream) and not sock.avail:
+                return 0
+        n = min(len(view), sock.avail)
+        view[:n] = sock.stream[sock.pos : sock.pos + n]
+        sock.pos += n
+        sock.avail -= n
+        return n
+
+
+def run_mainloop(case, proto_cache={}):
+    """The read step of Peer._main (a 100 ms timeout around Protocol.read_message, repeated) over a
+    connection on which the bytes arrive at scripted times."""
+    from exabgp.reactor.network import connection as connmod
+    from exabgp.reactor.network.connection import Connection
+    from exabgp.reactor.network.error import LostConnection
+    from exabgp.reactor.peer.peer import Peer
+    from exabgp.bgp.message import Notify, Notification
+    from exabgp.protocol.family import AFI
+
+    stream = bytes(case['stream'])
+    if 'p' not in proto_cache:
+        proto_cache['p'] = make_protocol()
+    proto = proto_cache['p']
+    conn = Connection(AFI.ipv4, '127.0.0.1', '127.0.0.1')
+    conn.msg_size = case['max']
+    conn.defensive = False
+    conn.io = TimedSock(stream, case['arrivals'])
+    proto.connection = conn
+    loop = VLoop()
+    saved = connmod.asyncio.get_event_loop
+    connmod.asyncio.get_event_loop = lambda: TimedLoop(loop)
+    asyncio.set_event_loop(loop)
+
+    class Stub:
+        pass
+
+    stub = Stub()
+    stub.proto = proto
+    real_step = getattr(Peer, '_read_message_or_nop', None)
+
+    async def read_step():
+        if real_step is not None:
+            return await real_step(stub)
+        # the pinned Peer._main reads like this (translate/t1_header.py checks that it still does)
+        try:
+            return await asyncio.wait_for(proto.read_message(), timeout=0.1)
+        except asyncio.TimeoutError:
+            return None
+
+    async def main():
+        outs = []
+        for _ in range(100000):
+            try:
+                m = await read_step()
+            except LostConnection:
+                break
+            except Notify as n:
+                outs.append(['N', n.code, n.subcode])
+                break
+            except Notification as n:
+                outs.append(['RN', n.code, n.subcode])
+                continue
+            if m is None or getattr(m, 'SCHEDULING', 0):
+                await asyncio.sleep(0)
+                continue
+            outs.append(['P', int(m.ID)])
+        return outs
+
+    try:
+        return loop.run_until_complete(main())
+    finally:
+        connmod.asyncio.get_event_loop = saved
+        conn.io = None
+        proto.connection = None
+        asyncio.set_event_loop(None)
+        loop.close()
 
 
 def run_real_socket(case):
@@ -308,6 +442,38 @@ def gen_case(rng, idx, modes):
     }
 
 
+def gen_mainloop_case(rng):
+    """valid decodable messages (KEEPALIVE, End-of-RIB, withdraw-only UPDATEs with bodies up to ~500 bytes)
+    delivered in pieces separated by gaps below and above the 100 ms read timeout of Peer._main"""
+    maxsize = rng.choice([4096, 65535])
+    stream = b''
+    for _ in range(rng.choice([1, 2, 3, 4])):
+        kind = rng.choice(['ka', 'eor', 'wd', 'wd'])
+        if kind == 'ka':
+            stream += header(19, 4)
+        elif kind == 'eor':
+            stream += header(23, 2) + bytes(4)
+        else:
+            k = rng.choice([1, 3, 20, 100])
+            wd = b''.join(bytes([32, 10, rng.getrandbits(8), rng.getrandbits(8), rng.getrandbits(8)]) for _ in range(k))
+            body = len(wd).to_bytes(2, 'big') + wd + bytes(2)
+            stream += header(19 + len(body), 2) + body
+    fault = 'none'
+    if rng.random() < 0.2:
+        fault = 'unknown'
+        stream += header(19, rng.choice([0, 7, 99, 255]))
+    arrivals = []
+    left = len(stream)
+    while left > 0:
+        nb = rng.choice([1, 2, 5, 18, 19, 20, 23, 40, 200, left])
+        nb = min(nb, left)
+        gap = rng.choice([0.0, 0.01, 0.05, 0.099, 0.1, 0.101, 0.15, 0.3, 1.0])
+        arrivals.append((gap, nb))
+        left -= nb
+    return {'max': maxsize, 'stream': list(stream), 'sched': [], 'arrivals': arrivals, 'mode': 'mainloop',
+            'fault': fault, 'nmsg': 0, 'style': 'timed'}
+
+
 def boundary_cases():
     """Every type 0..255 x lengths around every bound x both maxima (complete messages)."""
     cases = []
@@ -337,9 +503,11 @@ Definition out_eqb (a b : out) : bool :=
   | _, _ => false end.
 Fixpoint outs_eqb (a b : list out) : bool :=
   match a, b with [], [] => true | x :: a', y :: b' => out_eqb x y && outs_eqb a' b' | _, _ => false end.
+(* protocol-level observations carry the message type only: bodies are compared at reader level *)
+Definition strip (o : out) : out := match o with OMsg t _ => OMsg t [] | n => n end.
 Definition okc (c : bool * bool * Z * list Z * list nat * list out) : bool :=
   match c with (proto, async, max, stream, sched, expect) =>
-    outs_eqb (if proto then reader async max stream sched else reader_items async max stream sched) expect end.
+    outs_eqb (if proto then map strip (reader async max stream sched) else reader_items async max stream sched) expect end.
 Fixpoint bad (l : list (bool * bool * Z * list Z * list nat * list out)) (i : nat) : list nat :=
   match l with [] => [] | c :: l' => if okc c then bad l' (S i) else i :: bad l' (S i) end.
 """
@@ -356,9 +524,11 @@ Definition fout_eqb (a b : fout) : bool :=
   | _, _ => false end.
 Fixpoint fouts_eqb (a b : list fout) : bool :=
   match a, b with [], [] => true | x :: a', y :: b' => fout_eqb x y && fouts_eqb a' b' | _, _ => false end.
-Definition okc (c : Z * list Z * list fout) : bool :=
-  match c with (max, stream, expect) => fouts_eqb (frames max stream) expect end.
-Fixpoint bad (l : list (Z * list Z * list fout)) (i : nat) : list nat :=
+Definition fstrip (o : fout) : fout := match o with FMsg t _ => FMsg t [] | n => n end.
+Definition okc (c : bool * Z * list Z * list fout) : bool :=
+  match c with (proto, max, stream, expect) =>
+    fouts_eqb (if proto then map fstrip (frames max stream) else frames max stream) expect end.
+Fixpoint bad (l : list (bool * Z * list Z * list fout)) (i : nat) : list nat :=
   match l with [] => [] | c :: l' => if okc c then bad l' (S i) else i :: bad l' (S i) end.
 """
 
@@ -410,7 +580,7 @@ def evaluate(run: Run, cases, impl_outs, tag, model=True):
         model_shards.append(cur)
 
     def lift(case, res):
-        if case['mode'] == 'proto':
+        if case['mode'] in ('proto', 'mainloop'):
             return res
         out = []
         for r in res:
@@ -427,7 +597,7 @@ def evaluate(run: Run, cases, impl_outs, tag, model=True):
         for i in idx:
             c = cases[i]
             a = 'false' if c['mode'] == 'sync' else 'true'
-            p = 'true' if c['mode'] == 'proto' else 'false'
+            p = 'true' if c['mode'] in ('proto', 'mainloop') else 'false'
             items.append(f'({p}, {a}, {c["max"]}, {zbytes(c["stream"])}, {natlist(c["sched"])}, {coq_outs(impl_outs[i], "OMsg", "ONotify")})')
         return 'Definition cases : list (bool * bool * Z * list Z * list nat * list out) := [' + ';\n'.join(items) + '].\nEval vm_compute in (bad cases 0).\n'
 
@@ -435,8 +605,9 @@ def evaluate(run: Run, cases, impl_outs, tag, model=True):
         items = []
         for i in idx:
             c = cases[i]
-            items.append(f'({c["max"]}, {zbytes(c["stream"])}, {coq_outs(lifted[i], "FMsg", "FNotify")})')
-        return 'Definition cases : list (Z * list Z * list fout) := [' + ';\n'.join(items) + '].\nEval vm_compute in (bad cases 0).\n'
+            p = 'true' if c['mode'] in ('proto', 'mainloop') else 'false'
+            items.append(f'({p}, {c["max"]}, {zbytes(c["stream"])}, {coq_outs(lifted[i], "FMsg", "FNotify")})')
+        return 'Definition cases : list (bool * Z * list Z * list fout) := [' + ';\n'.join(items) + '].\nEval vm_compute in (bad cases 0).\n'
 
     model_bad, spec_bad = [], []
     mres = common.eval_cases(HEADER_MODEL, model_defs, model_shards, tag + '_m') if model else []
@@ -469,6 +640,7 @@ def describe(case, got):
         'max': case['max'],
         'stream_hex': bytes(case['stream']).hex(),
         'recv_schedule': case['sched'][:64],
+        'arrivals_gap_s_nbytes': case.get('arrivals'),
         'mode': case['mode'],
         'fault': case['fault'],
         'implementation_output': got,
@@ -477,6 +649,8 @@ def describe(case, got):
 
 def shrink(case, still_fails):
     """Delta-debug the stream by dropping whole leading messages, then trailing bytes."""
+    if case['mode'] == 'mainloop':
+        return case
     cur = dict(case)
     changed = True
     while changed:
@@ -519,6 +693,7 @@ def check(tier, seed):
     n = 1500 if tier == 'quick' else 30000
     modes = ['async', 'sync', 'proto', 'async', 'sync', 'proto', 'real'] if tier == 'quick' else ['async', 'sync', 'proto', 'async', 'sync', 'proto', 'async', 'real']
     cases = [gen_case(rng, i, modes) for i in range(n)]
+    cases += [gen_mainloop_case(rng) for _ in range(300 if tier == 'quick' else 5000)]
     if tier == 'thorough':
         cases += boundary_cases()
     else:
@@ -530,7 +705,7 @@ def check(tier, seed):
     t_impl = time.time()
     for c in cases:
         o = run_impl(c)
-        impl.append(proto_canon(o) if c['mode'] == 'proto' else canon(o))
+        impl.append(proto_canon(o) if c['mode'] in ('proto', 'mainloop') else canon(o))
     t_impl = time.time() - t_impl
     t_eval = time.time()
     model_ok, spec_ok, model_bad, spec_bad, logs, lifted = evaluate(run, cases, impl, 'c06')
@@ -558,7 +733,7 @@ def check(tier, seed):
     def fails_with(sig):
         def pred(c):
             o = run_impl(c)
-            r = proto_canon(o) if c['mode'] == 'proto' else canon(o)
+            r = proto_canon(o) if c['mode'] in ('proto', 'mainloop') else canon(o)
             _, ok, _, sb, _, lf = evaluate(run, [c], [r], 'c06_shrink', model=False)
             return ok and bool(sb) and sig_of(c, lf[0]) == sig
 
